@@ -596,4 +596,10 @@ func (x *Exec) builtinAppend(c *callCtx) {
 	}
 	r := Term{S: app("mk_Slice", arr, off, newLen, newCap), Sort: SSlice, T: c.argVals[0].Type()}
 	c.res = []Term{x.nameTerm(n, "appended", r)}
+	if x.elemLinksOn() && simpleConst(heap) && simpleConst(c.res[0].S) {
+		// a consequence of the model above, stated for both triggers: the result has the old elements as its prefix
+		nh := x.get(st, h).S
+		a, b := x.elemAt(h, nh, c.res[0].S, "i", es), x.elemAt(h, heap, s.S, "i", es)
+		n.assume(fmt.Sprintf("(forall ((i Int)) (! (=> (and (<= 0 i) (< i (s.len %s))) (= %s %s)) :pattern (%s) :pattern (%s)))", s.S, a, b, a, b))
+	}
 }
